@@ -429,7 +429,7 @@ def run(facts, tier):
     # entity (visited stack is a path: push and pop pair up), and declared defaults are added exactly when not written
     import guards
     from props import c11
-    reach, _ = facts.reachable([facts.fn("xml_info::attr_value_from_name")["id"]])
+    reach, _ = facts.reachable(c11.expansion_roots(facts))
     guards.rule(facts, res, "R01-6", [facts.fns[x] for x in reach if x in facts.fns], want=("G3",), floor=1)
     c11.c11_7(facts, res, facts.fn("xml_info::<XmlElement as Element>::attributes"), rule="R01-7")
     r01_8(facts, res)
